@@ -223,3 +223,6 @@ func VerifDumpEngine(eng *engine.DB, chans []ChannelKey) ([]VerifKV, error) {
 }
 
 var _ = context.Background
+
+// VerifMessageEngineOptions are the physical options of message.Open.
+func VerifMessageEngineOptions() engine.Options { return messageEngineOptions(nil) }
